@@ -129,7 +129,14 @@ func (g *FnGen) call(instr ssa.Instruction, c *ssa.CallCommon) Val {
 	}
 	callee := c.StaticCallee()
 	g.callAsserts(instr, short, n)
-	fc, pc := g.prog.findContract(c, callee, name)
+	var fc *FuncContract
+	var pc *PkgContracts
+	// a trusted contract declared in the verified function's own package file wins over other packages' declarations
+	if t := g.pc.Trusted[name]; t != nil {
+		fc, pc = t, g.pc
+	} else {
+		fc, pc = g.prog.findContract(c, callee, name)
+	}
 	var rname string
 	if v, ok := instr.(ssa.Value); ok {
 		rname = v.Name()
@@ -159,7 +166,32 @@ func (g *FnGen) call(instr ssa.Instruction, c *ssa.CallCommon) Val {
 	} else {
 		result = g.applyContract(fc, pc, c, callee, args, res, rname, short, n, instr.Pos())
 	}
-	// ghost updates / asserts attached to this call site
+	// ghost updates attached to this call site: "ghost-update after call C#N [when P]: g = e"
+	// (e and P may mention the call's results ret0.. and locals)
+	if !g.dry || true {
+		for _, gu := range g.fc.GhostUpds {
+			if gu.AtEntry || !strings.HasSuffix(short, gu.Callee) || gu.N != n {
+				continue
+			}
+			env := g.localEnv(instr.Block(), nil)
+			switch res.Len() {
+			case 0:
+			case 1:
+				env.vars["ret0"] = result
+			default:
+				for i, v := range result.Tuple {
+					env.vars[fmt.Sprintf("ret%d", i)] = v
+				}
+			}
+			for i, a := range args {
+				env.vars[fmt.Sprintf("arg%d", i)] = a
+			}
+			if gu.When != nil {
+				g.unsupported("ghost-update with a when clause is not implemented")
+			}
+			g.applyGhostUpdate(gu, env)
+		}
+	}
 	return result
 }
 
